@@ -24,7 +24,7 @@ import (
 // (KNOWN_FINDINGS.jsonl). They run before the generated cases on every check.
 
 func newJobctlSc(c *Ctx, mod func(j *execution.Job)) *jobctlWorld {
-	w := &jobctlWorld{c: c, rng: c.Rng, podsCreated: map[string]int64{}, foreign: map[string]bool{}}
+	w := &jobctlWorld{c: c, rng: c.Rng, podsCreated: map[string]int64{}, foreign: map[string]bool{}, foreignRec: map[string]bool{}, ownSucceeded: map[string]bool{}}
 	w.ctx = sim.NewContext()
 	w.clk = fakeclock.NewFakeClock(sim.VirtualBase.Add(5000 * time.Second))
 	ktime.Clock = w.clk
@@ -308,9 +308,10 @@ func runJobctlScenarios(c *Ctx) {
 		c.Nontrivial()
 	})
 
-	// F22 (known finding): task refs are keyed by name and the task lookups ignore the owner: a
-	// foreign Pod that takes the name of a recorded task after that task's Pod vanished is read as
-	// the task.
+	// F22: task refs are keyed by name; a foreign Pod that takes the name of a recorded task after
+	// that task's Pod vanished must not be read as the task (the lookups check the controller owner
+	// reference): the task is lost, the Job does not succeed through the foreign Pod, and the foreign
+	// Pod is never deleted by the Job.
 	c.RunScenario("f22-foreign-pod-takes-recorded-name", func() {
 		w := newJobctlSc(c, nil)
 		w.flush()
@@ -323,7 +324,7 @@ func runJobctlScenarios(c *Ctx) {
 		}
 		fp := &corev1.Pod{ObjectMeta: metav1.ObjectMeta{Namespace: "ns", Name: name}}
 		_, _ = w.api.Create("pods", fp, false)
-		w.foreign[name] = true
+		w.foreign[name], w.foreignRec[name] = true, true
 		c.Emit(fmt.Sprintf("jc.foreign %s 0", name), w.state())
 		w.api.Mutate("pods", "ns/"+name, func(o runtime.Object) { o.(*corev1.Pod).Status.Phase = corev1.PodSucceeded })
 		c.Emit(fmt.Sprintf("jc.pod %s %s", name, podDigest(w.apiPod(name))), w.state())
@@ -332,6 +333,27 @@ func runJobctlScenarios(c *Ctx) {
 		w.flush()
 		w.settle(2)
 		w.finalMonitors()
+		c.Nontrivial()
+	})
+
+	// F22b (regression guard of the repair of F22): a cached object of the ref's name that is not
+	// controlled by the Job must be treated as a cache MISS (live GET for an unfinished ref), not as
+	// "task absent".  A foreign Pod that has already been removed from the server, but whose deletion
+	// has not reached the pod cache yet, must not hide the Job's own live task of that name (a first
+	// form of the repair recorded that task lost while its Pod existed).
+	c.RunScenario("f22b-stale-foreign-cache-hides-own-task", func() {
+		w := newJobctlSc(c, nil) // maxAttempts 1
+		name := "job-" + defHash + "-0"
+		w.addForeign(name)
+		w.deliver("pods") // the pod cache holds the foreign pod
+		w.api.Remove("pods", "ns/"+name)
+		c.Emit(fmt.Sprintf("jc.pod %s gone", name), w.state()) // gone from the server; the delete event lags
+		w.deliver("jobs")
+		w.work() // the name is free: the Job's own pod is created and recorded
+		w.deliver("jobs")
+		w.work() // stale foreign object in the pod cache: a cache miss, the live GET finds the own pod
+		w.flush()
+		w.settle(3)
 		c.Nontrivial()
 	})
 
